@@ -23,7 +23,7 @@ open ZygoVerif.Core ZygoVerif.VM
 mutual
 def Fv : Expr → Bool
   | .int _ | .bool _ | .str _ | .nilLit | .sym _ => true
-  | .begin_ es => !es.isEmpty && FvList es
+  | .begin_ es => FvList es
   | .def_ _ e => Fv e
   | .set_ _ e => Fv e
   | .cond arms d => FvArms arms && Fv d
@@ -174,10 +174,12 @@ theorem compile_total_Fv : ∀ (e : Expr), Fv e = true → ∀ isFn c gs,
   | .sym x, _, isFn, c, gs => ⟨_, _, by rw [compile]; rfl, by simp⟩
   | .begin_ es, he, isFn, c, gs => by
     rw [Fv] at he
-    simp only [Bool.and_eq_true, Bool.not_eq_true', List.isEmpty_eq_false_iff] at he
-    rw [compile]
-    · exact compileBegin_total_Fv es he.1 he.2 isFn c gs
-    · exact he.1   -- (begin) with no statements: separate clause since fix C04-02
+    cases es with
+    | nil => exact ⟨[.push .nil], c.tail, by rw [compile]; rfl, by simp⟩   -- (begin) yields nil (fix C04-02)
+    | cons e0 es0 =>
+      rw [compile]
+      · exact compileBegin_total_Fv (e0 :: es0) (by simp) he isFn c gs
+      · intro hh; cases hh
   | .def_ x e, he, isFn, c, gs => by
     rw [Fv] at he
     obtain ⟨ce, t, h1, _⟩ := compile_total_Fv e he isFn { c with tail := false } gs
@@ -819,11 +821,21 @@ theorem vclaimE_succ {n : Nat} (hE : VClaimE n) (hB : VClaimB n) (hC : VClaimC n
     exact sim_sym x n hrel hseg
   | begin_ es =>
     rw [Fv] at he
-    simp only [Bool.and_eq_true, Bool.not_eq_true', List.isEmpty_eq_false_iff] at he
-    rw [compile] at hc
-    · rw [Ref.eval]
-      exact hB es he.1 he.2 isFn c gs r hc s rs env pre post hrel hseg
-    · exact he.1   -- (begin) with no statements: separate clause since fix C04-02
+    cases es with
+    | nil =>
+      rw [compile] at hc; simp only [g_pure_ok] at hc; subst hc
+      rw [Ref.eval]
+      cases n with
+      | zero => rw [Ref.evalBegin]; trivial
+      | succ m =>
+        rw [Ref.evalBegin]
+        · exact sim_push _ hrel hseg
+        · omega
+    | cons e0 es0 =>
+      rw [compile] at hc
+      · rw [Ref.eval]
+        exact hB (e0 :: es0) (by simp) he isFn c gs r hc s rs env pre post hrel hseg
+      · intro hh; cases hh
   | def_ x e1 =>
     rw [Fv] at he
     rw [compile] at hc
